@@ -673,3 +673,55 @@ def rule_scale_siblings(ctx):
                          (len(major[1]), fld, dimarr, major[0], dimarr, minority[0], armtxt))
     ctx.floor("SCALESIB", 5, n, "(scale field x rank arm groups read once per number type)")
     return n
+
+
+def rule_field_table_capacity(ctx):
+    """FIELDCAP (C19, C20): a Vdata has up to VSFIELDMAX (256) fields, and its write/read list says how many (`w->n`).  A local
+    table that is filled or read with the counter of a loop running to that `n` holds one entry per field, so it has at least
+    VSFIELDMAX elements: a shorter one (hdiff's `off1[60]`) is overrun by the first Vdata with more fields, on the stack."""
+    import re
+    from .rules_loops import loops_of, loop_body, seq_of
+    prog = ctx.prog
+    n = 0
+    cap = 256
+    for f in prog.funcs:
+        arrays = {}
+        for _b, _i, _s, x in f.nodes(True):
+            if x[0] == "decl":
+                for d in x[1]:
+                    m = re.search(r"\[(\d+)\]$", d[1] or "")
+                    if m:
+                        arrays[d[0]] = int(m.group(1))
+        if not arrays:
+            continue
+        seen = {}
+        for lp, st in loops_of(f):
+            if lp[0] != "for" or lp[2] is None:
+                continue
+            c = strip(lp[2])
+            if not (kind(c) == "bin" and c[1] in ("<", "<=") and kind(strip(c[2])) == "var"):
+                continue
+            b = strip(c[3])
+            if not (kind(b) == "mem" and b[2] == "n" and b[3] in ("dyn_write_struct", "dyn_read_struct", "write_struct", "DYN_VWRITELIST", "DYN_VREADLIST")):
+                continue
+            v = strip(c[2])[1]
+            for e, nd in seq_of(loop_body(lp)):
+                for x in walk(e, True):
+                    if x[0] == "idx" and kind(strip(x[1])) == "var" and strip(x[1])[1] in arrays and kind(strip(x[2])) == "var" and strip(x[2])[1] == v:
+                        seen.setdefault(strip(x[1])[1], (node_line_(lp), render(b)))
+        for a, (line, bound) in sorted(seen.items()):
+            n += 1
+            key = "FIELDCAP:%s:%s" % (f.name, a)
+            if arrays[a] >= cap:
+                ctx.holds("FIELDCAP", key, f.where(line), "`%s[%d]` is indexed up to `%s` and holds an entry for every possible field" % (a, arrays[a], bound), nontrivial=True)
+            else:
+                ctx.violated("FIELDCAP", key, f.where(line), "`%s[%d]` is indexed by a counter that runs to `%s` (up to %d fields): a Vdata with more than %d fields overruns it" % (a, arrays[a], bound, cap, arrays[a]))
+    ctx.floor("FIELDCAP", 2, n, "(local per-field tables indexed up to a Vdata's field count)")
+    return n
+
+
+def node_line_(nd):
+    try:
+        return nd[-3] if isinstance(nd[-3], int) else 0
+    except Exception:
+        return 0
